@@ -14,7 +14,7 @@ from ..statemon import Reach, FPMonitor
 
 RULE = ('one case = one list of 1-6 materials (each 1-4 atoms with neutron data: elements, isotopes, energy-dependent '
         'entries, ions; repeated materials; given as Formula objects built from strings, dicts, nested structures) with '
-        'three wavelength arguments (scalar, length-1 vector, length-n vector; float / numpy scalar / int / list / array) '
+        'three wavelength arguments (scalar, length-1 vector, length-n vector; float / numpy scalar / int / list / array; in 4 % of the lists the scalar is a 0-d numpy array) '
         'and for each calculator three weight vectors (zeros, ones, 12-decade spread; float or int numpy arrays) with '
         'densities >= 0, including zero total weight and zero density; the first weight vector is applied twice. '
         'distinct = distinct (per-material sorted atom keys, repetition pattern, zero pattern of each weight vector, '
@@ -32,7 +32,8 @@ LEVEL_NOTE = ('Trusted: numpy; the direct route neutron_sld is the oracle the pr
 SHARDS = {'quick': 4, 'thorough': 16}
 TIMEOUT = {'quick': 300, 'thorough': 2400}
 ASSUMPTIONS = ['weights are numpy arrays (the documented "vector of weights"; a Python list fails on weights[:, None])',
-               'materials are non-empty Formula objects; wavelength arguments are Python/numpy scalars, lists or 1-d arrays',
+               'materials are non-empty Formula objects; wavelength arguments are Python/numpy scalars, lists or 1-d arrays; a 0-d numpy '
+               'array counts as a scalar (the direct route treats it as one): finding c17.zero-dim-wavelength',
                'tolerance 1e-10 relative; incoherent SLD additionally |d| <= 1e-7*(|rho_re|+rho_im) (DESIGN 3.7); real SLD '
                'additionally |d| <= 1e-13*sqrt(re^2+im^2+inc^2) (cancellation of Re b_c between atoms of opposite sign)',
                'vacuum cases are compared by value only (both routes return scalar zeros there)',
